@@ -206,6 +206,11 @@ def _deadline(fn, seconds):
             signal.setitimer(signal.ITIMER_REAL, max(0.05, outer[0] - (time.time() - t0)), 1.0)
 
 
+class WorkerError(Exception):
+    """An exception that escaped a worker function, re-raised as a plain string (exception classes defined next to the
+    instrumented node classes cannot be unpickled in the parent process, which never imports anytree)."""
+
+
 def safe_worker(fn):
     import functools
     import traceback
